@@ -35,6 +35,7 @@ REQUIRED = {
     "mon:stop.reaches-every-underlying-result": 300,
     "mon:suite.stops-dispatching": 300,
     "mon:text.summary-agrees": 300,
+    "mon:run.failfast-stops-at-first-problem": 20,
     "mon:run.exit-status==not-wasSuccessful": 60,
 }
 ASSUMPTIONS = [
@@ -284,7 +285,21 @@ def x_run(ctx, case):
     prog = None
     try:
         argv = ["prog"] + (["-f"] if case.get("failfast") else []) + ["test_suite"]
-        prog = TestProgram(module=mod, argv=argv, stdout=out)
+        from testtools.run import TestToolsTestRunner
+
+        class NoTbLocals(TestToolsTestRunner):
+            """A runner class with the constructor contract before tb_locals was added."""
+
+            def __init__(self, verbosity=None, failfast=None, buffer=None, stdout=None):
+                super().__init__(verbosity=verbosity, failfast=failfast, buffer=buffer, stdout=stdout)
+
+        class Prior(TestToolsTestRunner):
+            """... and the one before stdout was (also unittest.TextTestRunner's shape)."""
+
+            def __init__(self, verbosity=None, failfast=None, buffer=None):
+                super().__init__(verbosity=verbosity, failfast=failfast, buffer=buffer, stdout=out)
+        runner = {"no_tb_locals": NoTbLocals, "prior": Prior}.get(case.get("runner_class"))
+        prog = TestProgram(module=mod, argv=argv, stdout=out, testRunner=runner)
     except SystemExit as e:
         code = e.code
     finally:
@@ -294,6 +309,14 @@ def x_run(ctx, case):
         first = next(k for k, o in enumerate(outcomes) if o in BAD)
         bad = [o for o in outcomes[:first + 1] if o in BAD]
     text = out.getvalue()
+    n_want = len(outcomes)
+    if case.get("failfast") and bad:
+        n_want = next(k for k, o in enumerate(outcomes) if o in BAD) + 1
+    import re
+    ran = re.findall(r"Ran (\d+) test", text)
+    ctx.check(ran == [str(n_want)], "run.failfast-stops-at-first-problem",
+              lambda: {"Ran": ran, "want": n_want, "failfast": bool(case.get("failfast")), "outcomes": outcomes,
+                       "runner class": case.get("runner_class"), "tail": text[-200:]})
     want = 1 if bad else 0
     ctx.check(code in (want, bool(want)) and code is not None and int(code) == want,
               "run.exit-status==not-wasSuccessful",
@@ -383,7 +406,12 @@ def run(ctx):
                              "segments": [random_segment(rng) for _ in range(rng.randint(1, 3))]})
     for i in range(ctx.scale(120, 6000)):
         tests = [rng.choice(OUTCOMES) for _ in range(rng.randint(0, 5))]
-        ctx.execute("run", {"tests": tests, "failfast": rng.random() < 0.3})
+        ctx.execute("run", {"tests": tests, "failfast": rng.random() < 0.3,
+                            "runner_class": rng.choice([None, None, "no_tb_locals", "prior"])})
+    for rc in (None, "no_tb_locals", "prior"):
+        for ff in (True, False):
+            for tests in (["failure", "success", "error"], ["success", "error", "failure"], ["uxsuccess", "success"]):
+                ctx.execute("run", {"tests": tests, "failfast": ff, "runner_class": rc})
     for tests in ([], ["success"], ["skip", "xfail"], ["uxsuccess"], ["success", "error"], ["failure"]):
         if ctx.mine():
             ctx.execute("subprocess", {"tests": tests})
